@@ -15,10 +15,10 @@ COMMON_ASSUME = [
 
 def mp_jobs(prefix=""):
     step = {"name": "step", "pkg": "motion", "harness": "motion", "entry": "ZZ_MP_step",
-            "grid": {"N": [1, 2, 3, 4]}, "grid_thorough": {"N": [1, 2, 3, 4, 5, 6, 7, 8]},
+            "grid": {"N": [1, 2, 3, 4], "STEPS": [2]}, "grid_thorough": {"N": [1, 2, 3, 4, 5, 6, 7, 8], "STEPS": [2]},
             "stubs": DETECT_STUB, "noops": LOG_NOOP, "native_rewrite": DETECT_REWRITE}
     cfgs = [  # fps, minS, maxS, prevS, T
-        (1, 0, 0, 0, 1), (2, 1, 2, 1, 1), (1, 2, 3, 1, 0), (1, 1, 1, 1, 2), (3, 1, 1, 0, 2), (2, 0, 1, 1, 0)]
+        (1, 0, 0, 0, 1), (2, 1, 2, 1, 1), (1, 2, 3, 1, 2), (1, 1, 1, 1, 2), (3, 1, 1, 0, 2), (2, 0, 1, 1, 0), (1, 2, 3, 1, 0)]
     jobs = [step]
     for i, (fps, mn, mx, pv, T) in enumerate(cfgs):
         jobs.append({"name": f"bmc{i}", "pkg": "motion", "harness": "motion", "entry": "ZZ_MP_bmc",
@@ -67,6 +67,7 @@ def thr_jobs():
         ("d", 600, 600 * 10**9, 15, 9, 4444444444, False, False),
         ("e", 2, 3 * 10**9, 1, 2, 1500000000, False, False),
         ("f", 10, 5 * 2**30, 3, 1, 1789569706, False, False),
+        ("g", 1, 2**33, 2, 1, 2**32, True, True),  # bucket smaller than the minimum clip: nothing may ever be recorded
     ]
     jobs = []
     for (nm, b, r, m, f, fi, pow2, quick) in cfgs:
